@@ -10,7 +10,7 @@ for cid in sys.argv[1:]:
     ids = [c for c in BY_ID if cid in c]
     for c in ids:
         t=time.time()
-        r=run_case(c)
+        r=run_case(c, timeout_scale=float(os.environ.get("SCALE","1")))
         st={}
         for o in r['obligations']: st[o['status']]=st.get(o['status'],0)+1
         print(c, 'paths',r['paths'], st, 'gaps',len(r['gaps']), (r['error'] or '')[-600:], '%.1fs'%(time.time()-t), r.get('stats'), flush=True)
